@@ -11,7 +11,16 @@ Tie:  G  Gen/BufProgs.lean is regenerated from /repo (harness/facts_bufprog.py):
          deep snapshot of all arguments before / after, np.shares_memory(out, in), write-to-output probe,
          shape / dims / coords (scalar coords included) / attrs / backend.  The prediction of the generated
          program (which inputs may be written, which inputs the result may alias) must cover the observation.
-Oracle (written from the property statement, with its documented exceptions only): the same observation.
+      wrapper level (round 2): every parameter is a raster object with three input buffers (cells, coordinates, attrs);
+         the xarray constructor / copy primitives are rows of a table (Gen.primTable = facts_bufprog.WPRIMS) probed here
+         on the real xarray (run_wrapper_probes); the fixture dimension `meta` of a case says which coordinates (scalar,
+         2-D auxiliary, non-index 1-D, datetime / string scalars, coordinate attrs; every dtype and layout) and which attrs
+         (plain, nested, array-valued, not deep-copyable) the rasters carry.
+Oracle (written from the property statement, with its documented exceptions only): the same observation.  Inputs are
+compared with a recursive snapshot whether the call returned or raised; the output's cells, coordinates and attrs arrays
+are checked with np.shares_memory against every buffer of every argument (index coordinates: only if writeable) and
+written into (cells, coordinate values, coordinate attrs, attrs dict) before the inputs are compared once more.  Values
+nested inside attrs that input and output share through xarray's shallow attrs copy are recorded, not judged.
 """
 import copy
 import json
